@@ -5,7 +5,8 @@ This module implements the SNMPv3 "User Security Model" as defined in
 
 from dataclasses import dataclass, replace
 from textwrap import indent
-from typing import Awaitable, Callable, Union, cast
+from time import monotonic
+from typing import Any, Awaitable, Callable, Dict, Union, cast
 
 from x690 import decode
 from x690.types import Integer, Null, ObjectIdentifier, OctetString, Sequence
@@ -417,6 +418,32 @@ class UserSecurityModel(
         engine_config = self.local_config.setdefault(engine_id, {})
         engine_config["authoritative_engine_boots"] = engine_boots
         engine_config["authoritative_engine_time"] = engine_time
+        # The remote clock keeps running. Remember when we learned its value
+        # so it can be estimated later on (rfc3414#section-2.3)
+        engine_config["received_at"] = monotonic()
+
+    def update_engine_timing(
+        self, security_params: USMSecurityParameters
+    ) -> None:
+        """
+        Synchronise the local notion of the remote engine's boots & time with
+        the values of an *authenticated* incoming message.
+
+        See :rfc:`3414#section-3.2` (step 7b). The values are only ever moved
+        forward, otherwise replayed old messages could turn back the clock.
+        """
+        engine_id = security_params.authoritative_engine_id
+        engine_config = self.local_config.get(engine_id)
+        if engine_config is None:
+            return
+        boots = security_params.authoritative_engine_boots
+        time = security_params.authoritative_engine_time
+        known_boots = engine_config["authoritative_engine_boots"]
+        if boots > known_boots or (
+            boots == known_boots
+            and time > estimated_engine_time(engine_config)
+        ):
+            self.set_engine_timing(engine_id, boots, time)
 
     def generate_request_message(
         self,
@@ -432,7 +459,7 @@ class UserSecurityModel(
         security_name = credentials.username.encode("ascii")
         engine_config = self.local_config[security_engine_id]
         engine_boots = engine_config["authoritative_engine_boots"]
-        engine_time = engine_config["authoritative_engine_time"]
+        engine_time = estimated_engine_time(engine_config)
 
         encrypted_message = apply_encryption(
             message,
@@ -486,6 +513,8 @@ class UserSecurityModel(
                 )
 
         verify_authentication(message, credentials, security_params)
+        if message.header.flags.auth:
+            self.update_engine_timing(security_params)
         message = decrypt_message(message, credentials)
         validate_usm_message(message)
         return message
@@ -575,6 +604,18 @@ class UserSecurityModel(
             unknown_engine_ids=unknown_engine_ids,
         )
         return out
+
+
+def estimated_engine_time(engine_config: Dict[str, Any]) -> int:
+    """
+    Returns the current value of the remote engine's clock, estimated from
+    the last value we received and the time that passed since then.
+    """
+    engine_time: int = engine_config["authoritative_engine_time"]
+    received_at = engine_config.get("received_at")
+    if received_at is None:
+        return engine_time
+    return engine_time + int(monotonic() - received_at)
 
 
 def validate_usm_message(message: PlainMessage) -> None:
